@@ -364,17 +364,20 @@ def setChain (s : State) (n : String) (ch : ChainDef) : State :=
 def setEntry (s : State) (r : EntryRec) : State :=
   { s with entries := s.entries.map fun x => if x.name = r.name then r else x }
 
+def RB.needsOwn : RB → Bool
+  | .block .own _ => true
+  | _ => false
+
 /-- the harness-side constructor of a recording slot followed by `Add…Slot` -/
 def addSlot (h : Heap) (ch : ChainDef) : SlotSpec → Heap × ChainDef
   | .p x => (h, { ch with ps := insertSlot (·.order) x ch.ps })
   | .s x => (h, { ch with ss := insertSlot (·.order) x ch.ss })
   | .r x =>
-    match x.beh with
-    | .block .own _ =>
+    if x.beh.needsOwn then
       -- the slot owns one `NewTokenResultPass()` for its whole life
-      let (h, t) := newTokenResult h 0 {}
-      (h, { ch with rs := insertSlot (·.order) { x with own := t } ch.rs })
-    | _ => (h, { ch with rs := insertSlot (·.order) x ch.rs })
+      ({ (newTokenResult h 0 {}).1 with },
+       { ch with rs := insertSlot (·.order) { x with own := (newTokenResult h 0 {}).2 } ch.rs })
+    else (h, { ch with rs := insertSlot (·.order) x ch.rs })
 
 def addSlots : List SlotSpec → Heap → ChainDef → Heap × ChainDef
   | [], h, ch => (h, ch)
@@ -396,63 +399,77 @@ def defaultStatIns : List (String × Nat) :=
 def defaultOrder : Out :=
   .gorder (addAll (·.2) defaultPrepIns) (addAll (·.2) defaultRuleIns) (addAll (·.2) defaultStatIns)
 
+def stepChain (s : State) (n : String) (slots : List SlotSpec) : State × Out :=
+  match findChain s n with
+  | some _ => (s, .bad)
+  | none =>
+    (setChain { s with h := (addSlots slots s.h {}).1 } n (addSlots slots s.h {}).2, sortedOut (addSlots slots s.h {}).2)
+
+def stepAdd (s : State) (n : String) (slot : SlotSpec) : State × Out :=
+  match findChain s n with
+  | none => (s, .bad)
+  | some ch =>
+    (setChain { s with h := (addSlot s.h ch slot).1 } n (addSlot s.h ch slot).2, sortedOut (addSlot s.h ch slot).2)
+
+def recordEntry (s : State) (e n : String) (r : Heap × List Call × EntryRes) : State × Out :=
+  match r.2.2 with
+  | .passed c ks =>
+    ({ s with h := r.1, lastLog := r.2.1,
+              entries := s.entries ++ [{ name := e, chain := n, ctx := c, tr := r.1.ctxs c, hooks := ks }] }, .pass)
+  | .blocked c a b =>
+    ({ s with h := r.1, lastLog := r.2.1,
+              entries := s.entries ++ [{ name := e, chain := n, ctx := c, tr := r.1.ctxs c, exited := true, blockAt := some a }] },
+     .block b)
+  | .escaped => ({ s with h := r.1, lastLog := r.2.1 }, .escaped)
+
+def stepEntry (s : State) (e n : String) : State × Out :=
+  match findEntry s e with
+  | some _ => (s, .bad)
+  | none =>
+    match findChain s n with
+    | none => (s, .bad)
+    | some ch => recordEntry s e n (apiEntry ch s.h)
+
+def stepWhenExit (s : State) (e : String) (id : Nat) (b : HB) : State × Out :=
+  match findEntry s e with
+  | some r =>
+    if r.blockAt.isSome then (s, .bad)
+    else (setEntry s { r with hooks := r.hooks ++ [(id, b)] }, .none)
+  | none => (s, .bad)
+
+def stepExit (s : State) (e : String) : State × Out :=
+  match findEntry s e with
+  | some r =>
+    if r.blockAt.isSome then (s, .bad)
+    else if r.exited then ({ s with lastLog := [] }, .ok)
+    else
+      match findChain s r.chain with
+      | none => (s, .bad)
+      | some ch =>
+        (setEntry { s with h := (exitBody ch.ss r.hooks r.ctx s.h).1, lastLog := (exitBody ch.ss r.hooks r.ctx s.h).2 }
+          { r with exited := true }, .ok)
+  | none => (s, .bad)
+
+def stepBlockErr (s : State) (e : String) : State × Out :=
+  match findEntry s e with
+  | some r =>
+    match r.blockAt with
+    | some a => (s, .berr (s.h.bes a))
+    | none => (s, .bad)
+  | none => (s, .bad)
+
 def step (s : State) : Op → State × Out
-  | .chain n slots =>
-    match findChain s n with
-    | some _ => (s, .bad)
-    | none =>
-      let (h, ch) := addSlots slots s.h {}
-      (setChain { s with h := h } n ch, sortedOut ch)
-  | .add n slot =>
-    match findChain s n with
-    | none => (s, .bad)
-    | some ch =>
-      let (h, ch) := addSlot s.h ch slot
-      (setChain { s with h := h } n ch, sortedOut ch)
-  | .entry e n =>
-    match findEntry s e, findChain s n with
-    | none, some ch =>
-      let (h, l, r) := apiEntry ch s.h
-      match r with
-      | .passed c ks =>
-        ({ s with h := h, lastLog := l,
-                  entries := s.entries ++ [{ name := e, chain := n, ctx := c, tr := h.ctxs c, hooks := ks }] }, .pass)
-      | .blocked c a b =>
-        ({ s with h := h, lastLog := l,
-                  entries := s.entries ++ [{ name := e, chain := n, ctx := c, tr := h.ctxs c, exited := true, blockAt := some a }] },
-         .block b)
-      | .escaped => ({ s with h := h, lastLog := l }, .escaped)
-    | _, _ => (s, .bad)
-  | .whenexit e id b =>
-    match findEntry s e with
-    | some r =>
-      if r.blockAt.isSome then (s, .bad)
-      else (setEntry s { r with hooks := r.hooks ++ [(id, b)] }, .none)
-    | none => (s, .bad)
-  | .exit e =>
-    match findEntry s e with
-    | some r =>
-      if r.blockAt.isSome then (s, .bad)
-      else if r.exited then ({ s with lastLog := [] }, .ok)
-      else
-        match findChain s r.chain with
-        | none => (s, .bad)
-        | some ch =>
-          let (h, l) := exitBody ch.ss r.hooks r.ctx s.h
-          (setEntry { s with h := h, lastLog := l } { r with exited := true }, .ok)
-    | none => (s, .bad)
+  | .chain n slots => stepChain s n slots
+  | .add n slot => stepAdd s n slot
+  | .entry e n => stepEntry s e n
+  | .whenexit e id b => stepWhenExit s e id b
+  | .exit e => stepExit s e
   | .log => (s, .log s.lastLog)
   | .ident e =>
     match findEntry s e with
     | some r => (s, .ident r.ctx r.tr)
     | none => (s, .bad)
-  | .blockerr e =>
-    match findEntry s e with
-    | some r =>
-      match r.blockAt with
-      | some a => (s, .berr (s.h.bes a))
-      | none => (s, .bad)
-    | none => (s, .bad)
+  | .blockerr e => stepBlockErr s e
   | .globalorder => (s, defaultOrder)
 
 def runOps (s : State) (ops : List Op) : State := ops.foldl (fun s o => (step s o).1) s
